@@ -3,6 +3,7 @@ import XlModel.SaveGrid
 import XlModel.SaveCols
 import XlModel.SaveBook
 import XlModel.SaveMerge
+import XlModel.SaveSst
 import XlModel.Drv.Util
 /-
 Line protocol of C01 (see harness/cmd/vh/c01.go):
@@ -19,6 +20,10 @@ Line protocol of C01 (see harness/cmd/vh/c01.go):
   rowseq n {k i v} SetRowHeight / SetRowVisible / SetRowOutlineLevel in order on a new worksheet: <sheetData> afterwards
   colseq n {k a b v} SetColWidth(a..b, v) / SetColOutlineLevel(a, v) in order on a new worksheet: the <cols> list afterwards
                   (model: SaveCols.setCols = flatCols with the setter's replacer)
+  styleseq n {k a b c d e}  SetCellInt (p j i _ _ v) and SetCellStyle over a rectangle (s j1 i1 j2 i2 id) in order on a new
+                  worksheet: <sheetData> afterwards (model: SaveBook.styleRect = writeCell with setStyle over the rectangle)
+  sstseq n1 {hex} n2 {hex}  SetCellStr on A1.., save+open, SetCellStr on the next cells: shared-string index of every
+                  cell and the table (model: SaveSst.setCellString, SaveSst.opened)
   hmerge n {c1 r1 c2 r2} the stored merged-range list of a worksheet before a real save; answer = the stored list after
                   OpenReader (model: SaveMerge.normalize = flatMergedCells)
   hbook <book>    sheet list / visibility / active tab / merged ranges / defined names of a generated workbook
@@ -254,6 +259,41 @@ def parseRects : Nat → List String → Option (List SaveMerge.Rect)
 def showRects (l : List SaveMerge.Rect) : String :=
   s!"{l.length}" ++ String.join (l.map fun m => s!" {m.c1} {m.r1} {m.c2} {m.r2}")
 
+/-- `sstseq n1 {hex} n2 {hex}`: SetCellStr n1 times, save + open, SetCellStr n2 times: the indices written
+into the cells and the table -/
+def foldStrs : Nat → List String → SaveSst.State → List Nat → Option (SaveSst.State × List Nat × List String)
+  | 0, w, st, acc => some (st, acc, w)
+  | n + 1, h :: w, st, acc => match decodeU h with
+    | some s => let p := SaveSst.setCellString st s; foldStrs n w p.1 (acc ++ [p.2])
+    | none => none
+  | _, _, _, _ => none
+
+def stepSst (w : List String) : String :=
+  match w with
+  | n1 :: rest => match n1.toNat? with
+    | some n1 => match foldStrs n1 rest ⟨[], []⟩ [] with
+      | some (st1, idx1, n2 :: rest2) => match n2.toNat? with
+        | some n2 => match foldStrs n2 rest2 (SaveSst.opened (st1.sst.map Bstr.xmlGo)) idx1 with
+          | some (st2, idx, []) =>
+            "idx=" ++ String.intercalate "," (idx.map toString) ++ s!" sst={st2.sst.length}" ++
+              String.join (st2.sst.map fun t => " " ++ encodeU t)
+          | _ => "bad-op"
+        | none => "bad-op"
+      | _ => "bad-op"
+    | none => "bad-op"
+  | [] => "bad-op"
+
+/-- `styleseq n { kind a b c d e }`: `p j i _ _ v` = SetCellInt, `s j1 i1 j2 i2 st` = SetCellStyle -/
+def applyStyleSeq : Nat → List String → List Grid.Row → Option (List Grid.Row)
+  | 0, [], rows => some rows
+  | n + 1, kind :: a :: b :: c :: d :: e :: w, rows =>
+    match a.toNat?, b.toNat?, c.toNat?, d.toNat?, e.toInt? with
+    | some a, some b, some c, some d, some e =>
+      if kind = "p" then applyStyleSeq n w (writeCell rows b a (setInt e))
+      else applyStyleSeq n w (styleRect rows b a d c e.toNat)
+    | _, _, _, _, _ => none
+  | _, _, _ => none
+
 def step (w : List String) : String :=
   match w with
   | ["bm", h] => match decodeU h with
@@ -292,6 +332,12 @@ def step (w : List String) : String :=
       | some st => "ok " ++ showCols (st.getD [])
       | none => "bad-op"
     | none => "bad-op"
+  | "styleseq" :: n :: g => match n.toNat? with
+    | some n => match applyStyleSeq n g [] with
+      | some rows => "ok " ++ showGrid rows
+      | none => "bad-op"
+    | none => "bad-op"
+  | "sstseq" :: g => stepSst g
   | "hmerge" :: n :: g => match n.toNat? with
     | some n => match parseRects n g with
       | some l => "ok " ++ showRects (SaveMerge.normalize l)
